@@ -207,10 +207,13 @@ func (client *client) Close() {
 	if atomic.LoadInt32(&client.isClosed) == 1 || atomic.LoadPointer(&client.topic) == nil {
 		return
 	}
+	// 只允许一个调用者执行关闭流程, 并发的第二次Close直接返回(否则 close(client.done) 会 panic: close of closed channel)
+	if !atomic.CompareAndSwapInt32(&client.isCloseing, 0, 1) {
+		return
+	}
 	topic := client.getTopic()
 	client.q.closeTopic(topic)
 	close(client.done)
-	atomic.StoreInt32(&client.isCloseing, 1)
 	client.wg.Wait()
 	atomic.StoreInt32(&client.isClosed, 1)
 	close(client.Recv())
